@@ -244,8 +244,8 @@ class C15(Engine):
 
     def scenarios(self):
         q = self.tier == "quick"
-        plan = [("plain", 1300 if q else 26000), ("git", 450 if q else 9000), ("git128", 80 if q else 1500),
-                ("gitmissing", 40 if q else 800), ("toctou", 120 if q else 2500)]
+        plan = [("plain", 1300 if q else 60000), ("git", 450 if q else 24000), ("git128", 80 if q else 3000),
+                ("gitmissing", 40 if q else 1500), ("toctou", 120 if q else 5000)]
         base = 0
         for config, n in plan:
             for i in range(n):
